@@ -23,7 +23,7 @@
 // Declared rewrites (logged): byte-string literal patterns -> binding + guard (Verus crashes on them), `map_err(Variant)` eta-expanded,
 // `format!("xl/{}", r)` and `path.split('/').nth(1)` -> assumed helpers with the same arguments, `&(n, _)` closure pattern -> `(n, _)`,
 // two `for` loops containing `continue` desugared (R6), format! -> opaque string in read_table_metadata (R4).
-// Genuine findings: findings/xlsxwb.json (native demonstrations findings/xlsxwb_1..8.rs).
+// Genuine findings: findings/xlsxwb.json (native demonstrations findings/xlsxwb_*.rs); fixed ones are listed under "fixed" there.
 #![feature(pattern)]
 #![allow(unused_imports, dead_code, unused_variables, unused_mut, unused_assignments, unexpected_cfgs)]
 use vstd::prelude::*;
@@ -994,10 +994,9 @@ impl<T> Table<T> {
     pub closed spec fn t_cols(&self) -> Seq<Seq<char>> { strs(self.columns@) }
     pub closed spec fn t_data(&self) -> Range<T> { self.data }
 }
-/// dimensions a window can be cut with (precondition of Range::new / Range::range): corners ordered component-wise, u32 cell count
-pub open spec fn dims_ok(d: Dimensions) -> bool {
-    d.start.0 <= d.end.0 && d.start.1 <= d.end.1 && (d.end.0 - d.start.0 + 1) * (d.end.1 - d.start.1 + 1) <= u32::MAX
-}
+/// the stored data dimensions denote at least one cell: corners ordered component-wise (a table whose reference holds nothing but its
+/// header / totals rows has start row > end row: its data range is empty)
+pub open spec fn has_cells(d: Dimensions) -> bool { d.start.0 <= d.end.0 && d.start.1 <= d.end.1 }
 
 /// witness for the precondition "tables are loaded" (the API protocol `load_tables()` before `table_by_name`; not a condition on the file)
 proof fn witness_tables_loaded<RS>(x: Xlsx<RS>)
@@ -1058,7 +1057,11 @@ proof fn witness_tables_loaded<RS>(x: Xlsx<RS>)
         r is Ok ==> exists|i: int| 0 <= i < old(self).g_tables()->Some_0@.len() && (#[trigger] old(self).g_tables()->Some_0@[i]).0@ == table_name@
             && (forall|j: int| 0 <= j < i ==> (#[trigger] old(self).g_tables()->Some_0@[j]).0@ != table_name@)
             && ({ let e = old(self).g_tables()->Some_0@[i]; let sheet = ws_range(old(self).loaded(), old(self).g_opts(), e.1@);
-                  sheet is Ok && window_of((r->Ok_0).t_data(), sheet->Ok_0, e.3.start, e.3.end) }),
+                  sheet is Ok && (has_cells(e.3) ==> window_of((r->Ok_0).t_data(), sheet->Ok_0, e.3.start, e.3.end)) }),
+        //# C17.table_without_data_rows_is_empty
+        r is Ok ==> exists|i: int| 0 <= i < old(self).g_tables()->Some_0@.len() && (#[trigger] old(self).g_tables()->Some_0@[i]).0@ == table_name@
+            && (forall|j: int| 0 <= j < i ==> (#[trigger] old(self).g_tables()->Some_0@[j]).0@ != table_name@)
+            && (!has_cells(old(self).g_tables()->Some_0@[i].3) ==> (r->Ok_0).t_data().wf() && !(r->Ok_0).t_data().nonempty()),
         //# C17.table_sheet_error_is_returned
         forall|i: int| 0 <= i < old(self).g_tables()->Some_0@.len() && (#[trigger] old(self).g_tables()->Some_0@[i]).0@ == table_name@
             && (forall|j: int| 0 <= j < i ==> (#[trigger] old(self).g_tables()->Some_0@[j]).0@ != table_name@)
@@ -1085,7 +1088,11 @@ proof fn witness_tables_loaded<RS>(x: Xlsx<RS>)
         r is Ok ==> exists|i: int| 0 <= i < old(self).g_tables()->Some_0@.len() && (#[trigger] old(self).g_tables()->Some_0@[i]).0@ == table_name@
             && (forall|j: int| 0 <= j < i ==> (#[trigger] old(self).g_tables()->Some_0@[j]).0@ != table_name@)
             && ({ let e = old(self).g_tables()->Some_0@[i]; let sheet = ws_range_ref::<'_>(old(self).loaded(), old(self).g_opts(), e.1@);
-                  sheet is Ok && window_of((r->Ok_0).t_data(), sheet->Ok_0, e.3.start, e.3.end) }),
+                  sheet is Ok && (has_cells(e.3) ==> window_of((r->Ok_0).t_data(), sheet->Ok_0, e.3.start, e.3.end)) }),
+        //# C17.table_without_data_rows_is_empty
+        r is Ok ==> exists|i: int| 0 <= i < old(self).g_tables()->Some_0@.len() && (#[trigger] old(self).g_tables()->Some_0@[i]).0@ == table_name@
+            && (forall|j: int| 0 <= j < i ==> (#[trigger] old(self).g_tables()->Some_0@[j]).0@ != table_name@)
+            && (!has_cells(old(self).g_tables()->Some_0@[i].3) ==> (r->Ok_0).t_data().wf() && !(r->Ok_0).t_data().nonempty()),
 //@@ end
 //@@ endimpl
 
